@@ -119,7 +119,7 @@ def r_get_pagein(ctx):
             atoms = {"status": status, "size": 4, "free_space": free}
             for p in paths:
                 if p.exit[0] != "return":
-                    ctx.undecided(rid, loc(fi), f"get raises on {atoms}: {vkey(p.exit[1])[:100]}")
+                    ctx.violation(rid, fi.qual, loc(fi), f"get completes in state {status}", f"{atoms}: Manager.get ends with {p.exit[0]} {vkey(p.exit[1])[:80]} instead of answering", row=atoms)
                     continue
                 rv = p.exit[1]
                 da = final_ds(p, "d") or d
